@@ -24,6 +24,7 @@ pub fn dispatch(line: &str) -> String {
         "eval" => lang::eval(rest),
         "vmrun" => lang::vmrun(rest),
         "core" => lang::core(rest),
+        "core2" => lang::core2(rest),
         "builtin" => builtin::run(rest),
         "pcap" => pcapop::run(rest),
         "symtab" => symtab::run(rest),
